@@ -118,6 +118,9 @@ func VH_C10_Change() {
 	dataEvery := 0
 	if nOut > 0 && nOut <= 2 && vnondetBool("withdata") {
 		dataEvery = 2
+		if nOut == 2 && vnondetBool("alldata") {
+			dataEvery = 1 // two data outputs: their bytes add up
+		}
 	}
 	tx := vfundedTx(nIn, nOut, dataEvery)
 	fq := vquoteD(dataEvery > 0)
